@@ -14,6 +14,12 @@ THEOREMS = [
     "C09.dfs_complete_depth_tight",
     "C09.dfs_complete_needs_noIntLit",
     "C09.dfs_complete_needs_consistency",
+    "C09.subCandidates_covers",
+    "C09.topCandidates_covers",
+    "C09.dfs_complete_code",
+    "C09.dfs_complete_oracle_code",
+    "C09.topCandidates_needs_fieldOk",
+    "C09.ruleNameR_unique",
 ]
 N = {"quick": 1500, "thorough": 20000}
 EXHAUSTIVE = {"quick": False, "thorough": False}
@@ -49,8 +55,11 @@ TRUSTED = [
     "Lean 4.33 kernel; axioms of every property theorem within {propext, Classical.choice, Quot.sound} (audited each run)",
     "hand-written model RreModel/C09/Model.lean tied to src/backward/{search,backward_engine,rule_executor}.rs, "
     "engine/condition_evaluator.rs, types.rs by the correspondence check only (differential testing)",
-    "candidate computation (ConclusionIndex lookup, substring heuristic) is re-implemented in Driver/C09.lean, not in the proved model: "
-    "the soundness/restoration theorems hold for every candidate list",
+    "candidate computation (find_candidate_rules = ConclusionIndex lookup + linear fallback; rule_could_prove_pattern over kb.get_rules()) "
+    "is part of the model (RreModel/C09/Candidates.lean, which runs C16's ConclusionIndex model on the knowledge base) and is what the driver "
+    "runs; like the search model it is tied to the code by the correspondence check only. The soundness/restoration theorems hold for every "
+    "candidate list; the completeness theorems dfs_complete_code / dfs_complete_oracle_code use the computed lists (coverage proved: "
+    "topCandidates_covers, subCandidates_covers)",
     "harness/src/bin/c09.rs, Driver/C09.lean parsing/printing glue, check.py diff; hook Facts::verif_undo_depth",
 ]
 ASSUMPTIONS = [
@@ -89,16 +98,26 @@ LEVEL_TEXT = ("Lean 4 theorems (kernel-checked, unbounded: every KB, store, goal
               "that derivability, so clause (iv) is a theorem of the model), dfs_complete_full_holds (the statement left open before), "
               "dfs_complete_partial (nesting-0 derivations, arbitrary KBs), and one kernel-evaluated witness per hypothesis: "
               "dfs_complete_depth_tight (height max_depth + 2 is not found), dfs_complete_needs_noIntLit (F-C09b), "
-              "dfs_complete_needs_consistency (F-C09e). Tied to the code by differential testing with "
+              "dfs_complete_needs_consistency (F-C09e). The hypothesis `Covers` of dfs_complete is discharged for the candidate lists the code computes "
+              "(RreModel/C09/Candidates.lean: topCandidates = ConclusionIndex::find_candidates on the index built by from_rules - C16's model of it, "
+              "reused - with the linear fallback of find_candidate_rules; subCandidates = rule_could_prove_pattern over kb.get_rules()): "
+              "subCandidates_covers (every naming, KB, atom: the pattern text starts with the field's name, so a rule with a Set on it passes the "
+              "substring test), topCandidates_covers (unique rule names, equality goal on a field whose name has no `==` and no outer blanks: "
+              "extract_field_from_goal recovers the name, C16.from_rules_complete gives the rule, the non-empty lookup keeps the fallback off), "
+              "dfs_complete_code / dfs_complete_oracle_code (= dfs_complete / dfs_complete_oracle with these lists and EVERY enumeration of the "
+              "top-level HashSet, no Covers hypothesis), topCandidates_needs_fieldOk (a field named `a==b` is cut at its first `==`: witness that "
+              "the name hypothesis is needed), ruleNameR_unique (the tie's rule names R<i> are pairwise different, for every KB). Tied to the code by differential testing with "
               "set-valued predictions, and by four model-free oracles (goal holds, explicit forward-reachability search, facts "
               "restored / no leaked frames, bounded completeness against a reference derivation-level computation) evaluated on "
               "the implementation's observations under every strategy.")
 LEVEL_NOTE = ("Bounded completeness is proved for knowledge bases whose actions give each field one value (consistent with the initial "
               "facts) and derivations through conjunctive equality rules without Integer literals; outside that fragment it is false of "
               "model and code (known findings F-C09b: Integer literal in a sub-goal, F-C09e: a later sub-proof overwrites an earlier "
-              "one) and only the runtime oracles (iv)/(iv-b) speak. The theorem assumes candidate lists that offer every rule assigning the "
-              "wanted value; that the code's conclusion index / substring heuristic do so is checked by the correspondence run, not proved. "
+              "one) and only the runtime oracles (iv)/(iv-b) speak. That the candidate lists offer every rule assigning the wanted value is proved for the "
+              "model's candidate computation (topCandidates_covers, subCandidates_covers; rules all enabled, rule names unique, goal field name "
+              "without `==` / outer blanks, index built from the current rule set); that this computation is the code's is checked by the "
+              "correspondence run (the driver runs exactly these functions). "
               "Soundness clause (i) is false for max_solutions > 1 (C09.query_sound_counterexample, known finding F-C09c). Trusted: Lean "
-              "kernel + {propext, Classical.choice, Quot.sound}; hand-written model tied by differential testing; candidate computation "
-              "re-implemented in the driver; harness/driver glue.")
+              "kernel + {propext, Classical.choice, Quot.sound}; hand-written model (search and candidate computation) tied by differential "
+              "testing; harness/driver glue.")
 DESIGN_REF = "§6 C09"
